@@ -184,13 +184,17 @@ def all_exact(c) -> bool:
     return True
 
 
-RUN_KEYS = ("form", "times", "expr", "start", "nd", "ops", "plan", "wgroup", "reuse", "tamper", "entry")
+RUN_KEYS = ("form", "times", "expr", "start", "nd", "ops", "plan", "wgroup", "reuse", "tamper", "entry", "sweep")
 
 
 def eff(c):
     """The run with the construction history of its Readout object made explicit: a run that re-uses the
     Readout object of the previous run of its session (`reuse`) is the previous object's constructor form
     and operations followed by its own operations."""
+    if c.get("sweep_value") is not None:
+        # one run of an `observation.readout.times` sweep: readout.replace(times=<value>)
+        base = eff({k: v for k, v in c.items() if k != "sweep_value"})
+        return dict(base, ops=list(base.get("ops", [])) + [["replace_times", dict(form="list", times=[c["sweep_value"]])]])
     if not c.get("reuse"):
         return c
     pre = c.get("pre") or []
@@ -415,7 +419,41 @@ def gen_sessions(r, n_random: int):
     return out
 
 
-def gen_cases(ctx: Ctx, n_valid: int, mal_reps: int, n_sessions: int = 0):
+def gen_observation_case(r, entry=None, key=None, mode=None):
+    """pyxel.run_mode(Observation): run_pipeline once per parameter set, each on a deep copy of the detector (prior
+    state included), with the observation's readout -- or, for a sweep of `observation.readout.times`, with
+    readout.replace(times=<value>)."""
+    c = gen_valid_case(r, dict(form=r.choice(["list", "list", "tuple", "file_npy", "ndarray", "numpy_str"]),
+                               nops=r.choice([0, 0, 1]), entry=entry or r.choice(["observation", "observation_dask"])))
+    key = key or r.choice(["temperature", "times"])
+    fts, fstart, _ = intended_final(c)
+    sw = dict(key=key, mode=mode or r.choice(["product", "sequential"]))
+    if c["entry"] == "observation_dask":
+        sw["scheduler"] = r.choice(["synchronous", "threads"])
+    if key == "temperature":
+        sw["values"] = sorted(r.sample([80.0, 120.0, 160.0, 200.0, 240.0], r.choice([2, 2, 3])))
+    else:
+        vals = []
+        while len(vals) < r.choice([2, 3, 4]):
+            v = fstart + r.choice(INCS) * r.choice([1, 2, 3, 7])
+            if v != 0.0 and v not in vals and exact_ok([v], fstart):
+                vals.append(v)
+        sw["values"] = [hx(v) for v in vals]
+    c["sweep"] = sw
+    return c
+
+
+def gen_observations(r, n_random: int):
+    out = []
+    for entry in ("observation", "observation_dask"):
+        for key in ("temperature", "times"):
+            for mode in ("product", "sequential"):
+                out.append(gen_observation_case(r, entry, key, mode))
+    out += [gen_observation_case(r) for _ in range(n_random)]
+    return out
+
+
+def gen_cases(ctx: Ctx, n_valid: int, mal_reps: int, n_sessions: int = 0, n_observations: int = 0):
     r = ctx.rng("cases")
     cases = []
     # every (history, mode) pair with a multi-step pixel-accumulating plan: the leak / flag mutations
@@ -440,6 +478,7 @@ def gen_cases(ctx: Ctx, n_valid: int, mal_reps: int, n_sessions: int = 0):
         cases.append(gen_valid_case(r))
     cases += gen_malformed_cases(r, mal_reps)
     cases += gen_sessions(ctx.rng("sessions"), n_sessions)
+    cases += gen_observations(ctx.rng("observations"), n_observations)
     return cases
 
 
@@ -558,6 +597,11 @@ def relation(c) -> str:
 def classify(c, o):
     """(clause, sig-extras, what) of a case the Coq specification flagged (python side: naming only)."""
     clause, extra, what = classify1(c, o)
+    if str(c.get("entry", "")).startswith("observation"):
+        extra = dict(extra, entry=c["entry"], sweep=c["sweep"]["key"])
+        what += (f" -- one pipeline of pyxel.run_mode(Observation, with_dask={c['entry'] == 'observation_dask'}) sweeping "
+                 f"{c['sweep']['key']} over {[fl(v) if isinstance(v, str) else v for v in c['sweep']['values']]}"
+                 + (f", this pipeline: readout.times = {fl(c['sweep_value'])}" if c.get("sweep_value") is not None else ""))
     if c.get("pre") and clause in ("clock", "step_start_buckets", "once_per_time", "unclassified"):
         what += (f" -- run {len(c['pre']) + 1} of a session on one detector object; relative to the previous run: "
                  f"{relation(c)}; caller's assignments before this run: {c.get('tamper') or 'none'}")
@@ -632,18 +676,58 @@ def to_violation(c, o) -> Violation:
 PER_FILE = 80
 
 
+def expand(c, o):
+    """The (case, observation) pairs judged for one driver result: the run itself; its second clock view if the
+    two public views differ; for an Observation one pair per executed pipeline (detector copy)."""
+    out = []
+
+    def add_pair(cc, oo):
+        out.append((cc, oo))
+        if oo.get("obs_rp"):
+            # detector.<clock property> and detector.readout_properties.<clock property> disagree
+            out.append((dict(cc, view="readout_properties"), dict(oo, obs=oo["obs_rp"])))
+
+    if o.get("stage") is not None or "groups" not in o:
+        if c.get("sweep") and c["sweep"]["key"] == "times" and o.get("stage") is not None:
+            c = dict(c, sweep_value=c["sweep"]["values"][0])
+        add_pair(c, o)
+        return out
+    sw, groups = c["sweep"], o["groups"]
+    base = {k: o[k] for k in ("stage", "executed", "d0", "rp0")}
+    dask = c.get("entry") == "observation_dask"
+    if sw["key"] == "temperature":
+        for g in groups:
+            add_pair(c, dict(base, obs=g["obs"], **({"obs_rp": g["obs_rp"]} if g.get("obs_rp") else {})))
+        # dask runs the first parameter set once more, eagerly, to learn the structure of the result
+        if len(groups) not in ((len(sw["values"]), len(sw["values"]) + 1) if dask else (len(sw["values"]),)):
+            add_pair(dict(c, view="number_of_pipelines"), dict(base, obs=[]))
+        return out
+    seen = set()
+    for k, g in enumerate(groups):
+        if dask:
+            match = [v for v in sw["values"] if [v] == g["rp_times"]]
+            v = match[0] if match else sw["values"][0]
+        else:
+            v = sw["values"][min(k, len(sw["values"]) - 1)]
+        seen.add(v)
+        add_pair(dict(c, sweep_value=v), dict(base, obs=g["obs"], **({"obs_rp": g["obs_rp"]} if g.get("obs_rp") else {})))
+    for v in sw["values"]:
+        if v not in seen:       # a swept value for which no pipeline ran
+            add_pair(dict(c, sweep_value=v, view="value_not_run"), dict(base, obs=[]))
+    if not dask and len(groups) != len(sw["values"]):
+        add_pair(dict(c, sweep_value=sw["values"][0], view="number_of_pipelines"), dict(base, obs=[]))
+    return out
+
+
 def evaluate(ctx: Ctx, cases, tag="c", count=True):
     """Run implementation + Coq on the cases. Returns (mismatching, violating, pairs)."""
-    payload = [dict({k: v for k, v in c.items() if k not in ("malformed", "path", "view", "judge_all")},
+    payload = [dict({k: v for k, v in c.items() if k not in ("malformed", "path", "view", "judge_all", "sweep_value")},
                     all_runs=bool(c.get("judge_all"))) for c in cases]
     obs = core.run_driver(ctx, "c02", payload, workers=8)
     pairs = []
 
     def add_pair(c, o):
-        pairs.append((c, o))
-        if o.get("obs_rp"):
-            # detector.<clock property> and detector.readout_properties.<clock property> disagree
-            pairs.append((dict(c, view="readout_properties"), dict(o, obs=o["obs_rp"])))
+        pairs.extend(expand(c, o))
 
     for c, o in zip(cases, obs):
         if "crash" in o or "driver_error" in o:
@@ -685,6 +769,8 @@ def evaluate(ctx: Ctx, cases, tag="c", count=True):
             ctx.dist("ops", len(eff(c).get("ops", [])))
             ctx.dist("malformed", c.get("malformed", "-"))
             ctx.dist("entry", c.get("entry", "run_mode"))
+            if c.get("sweep"):
+                ctx.dist("observation_sweep", f"{c['sweep']['key']},{c['sweep'].get('mode')},{c['sweep'].get('scheduler', '-')}")
             ctx.dist("detector", c.get("detector", "ccd"))
             ctx.dist("outcome", "ran" if o.get("stage") is None else f"rejected_stage_{o['stage']}")
     return mism, viol, pairs
@@ -731,6 +817,8 @@ def shrink_session(ctx: Ctx, c, o):
 
 def shrink(ctx: Ctx, c, o):
     """Smaller neighbours of a violating case; keep the smallest that still violates with the same clause."""
+    if str(c.get("entry", "")).startswith("observation"):
+        return c, o
     if c.get("pre"):
         c, o = shrink_session(ctx, c, o)
         if c.get("pre"):
@@ -794,7 +882,15 @@ def record(ctx: Ctx, mism, viol, do_shrink=True):
             v = to_violation(c2, o2)
         seen.add(key)
         ctx.violations.append(v)
+    known_keys = set()
+    for c, o in viol:
+        if any(core.finding_matches(e, to_violation(c, o)) for e in fs):
+            known_keys.add(json.dumps(c, sort_keys=True))
     for c, o in mism:
+        if json.dumps(c, sort_keys=True) in known_keys:
+            # the model describes the intended behaviour here; the divergence is the recorded open defect
+            ctx.count("mismatches_explained_by_known_findings")
+            continue
         has_nan = any(any(t != t for t in ts) or st != st for ts, st, _ in intended_all(c))
         if has_nan and o.get("stage") == 2 and o.get("executed", 0) > 0:
             # NaN is outside what the model of the run carries (the loop itself runs; the crash comes from
@@ -833,7 +929,7 @@ def run(ctx: Ctx):
         if not ok:
             ctx.broken.append(Broken("theorem", "coqchk of Properties/C02.v", core.tail(out, 20)))
 
-    cases = gen_cases(ctx, ctx.budget(260, 1500), ctx.budget(1, 3), ctx.budget(40, 300))
+    cases = gen_cases(ctx, ctx.budget(260, 1500), ctx.budget(1, 3), ctx.budget(40, 300), ctx.budget(8, 80))
     mism, viol, pairs = evaluate(ctx, cases)
     distinct = set()
     for c, o in pairs:
@@ -891,22 +987,23 @@ def replay(ctx: Ctx, rp: dict) -> int:
     (gen / "Gen_C02.v").write_text(text)
     core.ensure_lib(ctx, targets=["theories/Model/Exposure.vo"])
     core.coqc(ctx, gen / "Gen_C02.v", [(gen, "PyxelGen")])
-    payload = {k: v for k, v in case.items() if k not in ("malformed", "path", "view")}
+    payload = {k: v for k, v in case.items() if k not in ("malformed", "path", "view", "sweep_value", "judge_all")}
     o = core.run_driver(ctx, "c02", [payload], workers=1)[0]
-    if case.get("view") == "readout_properties" and o.get("obs_rp"):
-        o = dict(o, obs=o["obs_rp"])
     print("case:", json.dumps(case))
     print("implementation now does:", json.dumps(o)[:1500])
     if "crash" in o or "driver_error" in o:
         print("driver failed")
         return 1
-    ok, evals, se = core.coq_eval(ctx, "replay", emit_file([(case, o)]))
+    base = {k: v for k, v in case.items() if k not in ("view", "sweep_value")}
+    pairs = expand(base, o)       # the run, its second clock view, every pipeline of an Observation
+    ok, evals, se = core.coq_eval(ctx, "replay", emit_file(pairs))
     if not ok or len(evals) != 2:
         print("case file did not evaluate:", core.tail(se, 10))
         return 1
-    bad = core.parse_int_list(evals[1]) != []
-    if bad:
-        print("classified as:", classify(case, o)[2])
+    idx = core.parse_int_list(evals[1])
+    bad = idx != []
+    for i in idx[:3]:
+        print("classified as:", classify(*pairs[i])[2])
     print("specification (evaluated in Coq):", "VIOLATED" if bad else "holds")
     return 1 if bad else 0
 
